@@ -233,3 +233,80 @@ def run_stateful(ctx, n):
                         f"time of the call are {ws[:8]}{'…' if len(ws) > 8 else ''} returns {json.dumps(got)[:60]}; those values prescribe {json.dumps(want)[:60]}",
                         {"mode": m, "sequence": [[s[2], s[3]] for s in steps[:i + 1]][-12:], "h": h, "weights": ws, "impl": got, "spec": want})
                     break
+
+
+def run_scaling(ctx, n):
+    """multiplying every weight by the same power of two changes no share and — binary64 scales exactly — no rounding: every unit keeps its
+    group.  Vectors with thin groups that float accumulation absorbs ([h*2^55, 1, 1, (2^32-h)*2^55]: the unit with hash h sits exactly on the
+    first boundary) are compared with their copies scaled by 2^10, 2^54, 2^60, through COMPILED experiments (integer literals of any size) and
+    through the direct API (float weights)."""
+    from pyab_experiment.binning import binning
+    from pyab_experiment.experiment_evaluator import ExperimentEvaluator
+    rng = ctx.rng
+    for k in range(n):
+        uid = "user-%d" % rng.randrange(10 ** 9)
+        env = {"uid": uid}
+        h = gen.published_position(None, ["uid"], env)
+        if h == 0:
+            continue
+        shape = rng.choice(["absorbed", "absorbed", "plain", "three"])
+        if shape == "absorbed":
+            base = [h * 2 ** 55, 1, 1, (2 ** 32 - h) * 2 ** 55]
+        elif shape == "plain":
+            base = [h, 2 ** 32 - h]
+        else:
+            base = [h * 2 ** 30, 3, (2 ** 32 - h) * 2 ** 30 - 3]
+        results = {}
+        for sh in (0, 10, 54, 60):
+            ws = [w * 2 ** sh for w in base]
+            text = "def e { splitters: uid return %s }" % ", ".join('"g%d" weighted %d' % (i, w) for i, w in enumerate(ws))
+            results[("compiled", sh)] = common.outcome_of(lambda: ExperimentEvaluator(text)(**env))
+            results[("direct", sh)] = common.outcome_of(lambda: binning.deterministic_choice(str(uid), ["g%d" % i for i in range(len(ws))], weights=[float(w) for w in ws]))
+        ctx.case(("scaling", uid, shape), True)
+        ctx.count("scaling:" + shape)
+        first = results[("compiled", 0)]
+        for key, out in results.items():
+            if out != first:
+                ctx.violation(f"unit {uid!r} (position {h}/2^32): with weights {base} it gets {json.dumps(first)}; with the same weights times 2^{key[1]} ({key[0]}) it gets "
+                              f"{json.dumps(out)} — scaling every weight by a power of two changes no share and no rounding",
+                              {"uid": uid, "h": h, "weights": [str(w) for w in base], "shift": key[1], "form": key[0], "impl_base": first, "impl_scaled": out})
+                break
+
+
+def _rounded_total_cases():
+    """decimal weight triples whose left-to-right float sum differs from the correctly rounded sum, extended by a fourth weight that makes the
+    total exactly twice the correctly rounded prefix sum: at position 1/2 the scaled position IS that prefix sum, one ulp below the running total"""
+    out = []
+    tenths = [x / 10 for x in range(1, 40)] + [x / 100 for x in (7, 11, 13, 29, 35, 57)]
+    for a in tenths:
+        for b in tenths:
+            for c in tenths:
+                plain = (a + b) + c
+                exact = float(Fraction(a) + Fraction(b) + Fraction(c))
+                if plain > exact:
+                    w4 = 2 * exact - plain
+                    if w4 > 0 and plain + w4 == 2 * exact and 0.5 * (plain + w4) == exact:
+                        out.append([a, b, c, w4])
+                        if len(out) >= 40:
+                            return out
+    return out
+
+
+def run_rounded_totals(ctx):
+    """`weights=ws` and `cum_weights=list(accumulate(ws))` are the same call: the running totals are the plain left-to-right float sums (what
+    `itertools.accumulate` — and `random.choices` — compute), not a compensated or correctly rounded sum"""
+    import itertools as _it
+    from pyab_experiment.binning import binning
+    pop = ["A", "B", "C", "D"]
+    with SubstitutedPosition():
+        for ws in _rounded_total_cases():
+            cum = list(_it.accumulate(ws))
+            for h in (2 ** 31, 2 ** 31 - 1, 2 ** 31 + 1):
+                a = common.outcome_of(lambda: binning.deterministic_choice(str(h), pop, weights=list(ws)))
+                b = common.outcome_of(lambda: binning.deterministic_choice(str(h), pop, cum_weights=cum))
+                ctx.case(("rounded-total", tuple(ws), h), True)
+                ctx.count("rounded-totals")
+                if a != b:
+                    ctx.violation(f"weights {ws} at position {h}/2^32 give {json.dumps(a)}, their running totals {cum} give {json.dumps(b)}: the running totals of "
+                                  f"weights are the plain left-to-right sums", {"weights": [repr(w) for w in ws], "cum_weights": [repr(c) for c in cum], "h": h, "impl_weights": a, "impl_cum": b})
+                    return
